@@ -382,6 +382,13 @@ def trsbox(xopt, g, H, sl, su, delta, use_fortran=USE_FORTRAN):
     if need_alt_trust_step:
         crvmin = 0.0
         d, gnew = alt_trust_step(n, xopt, H, sl, su, d, xbdi, nact, gnew, qred)
+        # The rotations in the alternative iteration only preserve ||d|| up to rounding errors, which are amplified when
+        # d and the gradient are nearly parallel, so d can end up (relatively ~1e-8) outside the trust region: pull it back
+        dnorm = sqrt(sumsq(d))
+        if dnorm > delta * (1.0 + 1.0e-12):
+            d_scaled = (delta / dnorm) * d  # still within the bounds, since these contain xopt
+            gnew = gnew + H.dot(d_scaled - d)
+            d = d_scaled
         return d, gnew, crvmin
     else:
         return d_within_bounds(d, xopt, sl, su, xbdi), gnew, crvmin
